@@ -49,6 +49,10 @@ def templates():
     # 2-D group takes a scatter/gather chain through the 1-D group
     T["replicated0"] = dict(nd=3, groups=[{'v_parallel_2d': [0, 2, 1], 'mode_solve': [1, 2, 0]}, {'v_parallel_1d': [0, 2, 1]}, {'full': [0, 2, 1], 'full_t': [2, 1, 0]}],
                             procs=lambda p0, p1: [[p0, p1], p0, []], start='mode_solve')
+    # a SECOND group distributed in two directions (the same two axes as 'v_parallel_2d' of the first group, listed in the other
+    # order) next to a 1-D group: each direction of that group has to be given its own sub-communicator
+    T["two2d"] = dict(nd=3, groups=[{'v_parallel_2d': [0, 2, 1], 'mode_solve': [1, 2, 0]}, {'z_first': [2, 0, 1]}, {'poloidal': [2, 1, 0]}],
+                      procs=lambda p0, p1: [[p0, p1], [p1, p0], p1], start='v_parallel_2d')
     T["four"] = dict(nd=4, groups=[{'flux_surface2': [0, 3, 1, 2], 'v_parallel': [0, 2, 1, 3], 'poloidal': [3, 2, 1, 0]},
                                    {'flux_surface1': [0, 3, 1, 2], 'z_surface': [2, 3, 1, 0], 'vr_contig1': [2, 1, 3, 0]}],
                      procs=lambda p0, p1: [[p0, p1], p0], start='flux_surface2')
@@ -146,6 +150,12 @@ def gen_cases(tier, seed):
             cases.append({"kind": "cfg", "must_accept": False, "sched_seed": 9, "walk": 20, "cost": 200,
                           "cfg": {"template": "long3", "perturbed": False, "p": [p0, p1], "groups": t["groups"], "procs": t["procs"](p0, p1), "start": "A",
                                   "shape": [7, 6, 5], "dtype": "float"}})
+    for (p0, p1) in [(2, 2), (2, 3), (3, 2), (3, 3), (1, 3), (2, 1)]:
+        if p0 * p1 <= max(Pmax, 9):
+            t = templates()["two2d"]
+            cases.append({"kind": "cfg", "must_accept": True, "sched_seed": 11 + p0, "walk": 16, "cost": 100,
+                          "cfg": {"template": "two2d", "perturbed": False, "p": [p0, p1], "groups": t["groups"], "procs": t["procs"](p0, p1), "start": t["start"],
+                                  "shape": [6, 6, 6] if (p0 + p1) % 2 == 0 else [7, 5, 8], "dtype": "float"}})
     # deterministic witness of the listed known finding (and its complement: same groups, driver order)
     g = templates()["driver"]["groups"]
     cases.append({"kind": "cfg", "must_accept": False, "sched_seed": 5, "walk": 10, "cost": 50,
@@ -213,6 +223,7 @@ def run_case(case):
     rel = "serial" if P == 1 else ("p0=p1" if p0 == p1 else ("has1" if 1 in (p0, p1) else "p0!=p1"))
     base = "%s%s/%s/%s/%s" % (cfg["template"], "*" if cfg["perturbed"] else "", rel, "even" if even else "uneven", dtype)
     walk_seed = case["sched_seed"] ^ 0x77
+    skip_known = bool(case.get("_skip_known"))   # second pass of a configuration in which the listed finding fired (see the end of run_case)
 
     def prog(rank):
         import warnings
@@ -232,6 +243,9 @@ def run_case(case):
         for a in names:
             for b in names:
                 for wb in (False, True):
+                    if skip_known and a != b and _hop_mechanism(h, a, b, cfg, group_of):
+                        out["skipped_known"] = out.get("skipped_known", 0) + 1
+                        continue
                     t0 = len(w.trace[rank])
                     try:
                         msg = lo.transpose_and_check(h, G, a, b, wb, dtype=dtype, bufs=bufs)
@@ -283,6 +297,8 @@ def run_case(case):
         for hop in range(case.get("walk", 12)):
             nxt = rng.choice(names)
             wb = rng.random() < 0.5
+            if skip_known and cur != nxt and _hop_mechanism(h, cur, nxt, cfg, group_of):
+                continue
             keep = X[:h.getLayout(cur).size].copy()
             h.transpose(X, Y, cur, nxt, Z if wb else None)
             Ln = h.getLayout(nxt)
@@ -351,5 +367,15 @@ def run_case(case):
             key = KEY_SAME_NDIST
         wit["fail_hops"] = [r.get("fail_hop") for r in res if r.get("fail_hop")]
         wit["traceback"] = next((r.get("tb") for r in res if r.get("tb")), None)
+        if key == KEY_SAME_NDIST and not skip_known:
+            # the listed finding ends the first pass at its first hop; it must not hide anything else in this configuration:
+            # second pass over every hop (and a walk) whose route does not use the listed mechanism, in a fresh world
+            r2 = run_case(dict(case, _skip_known=True))
+            if r2["status"] == VIOL:
+                r2["what"] = "(hops routed through the listed cross-group finding left out) " + r2.get("what", "")
+                return r2
+            if r2["status"] == HELD:
+                ev["hops_compared_beyond_listed_finding"] = r2["events"].get("hops_compared", 0)
+                cls = sorted(set(cls) | set(r2["cls"]))
         return result(VIOL, cls=cls, events=ev, key=key, what=bad[0] + " cfg=%r" % (cfg,), witness=wit, sched=sched, n_eval=ev["hops_compared"])
     return result(HELD, cls=cls, events=ev, sched=sched, n_eval=ev["hops_compared"])
